@@ -111,6 +111,25 @@ fn background_programs(rng: &mut Rng) -> String {
     s
 }
 
+/// User struct types of random size, nested, bound to direct addresses and measured with SIZEOF: the process image layout and the
+/// SIZEOF results depend on type sizes, and user type ids repeat from one compilation to the next.
+fn layout_types(rng: &mut Rng) -> String {
+    let scalars = ["SINT", "INT", "DINT", "LINT", "WORD", "LWORD", "BYTE", "REAL", "LREAL"];
+    let mut s = String::new();
+    let n_inner = 1 + rng.usize(4);
+    s += "TYPE Channel :\nSTRUCT\n";
+    for i in 0..n_inner {
+        s += &format!("    c{i} : {};\n", rng.pick(&scalars));
+    }
+    s += "END_STRUCT\nEND_TYPE\n\nTYPE Frame :\nSTRUCT\n    first : Channel;\n";
+    if rng.bool() {
+        s += &format!("    more : ARRAY[0..{}] OF Channel;\n", rng.usize(3));
+    }
+    s += "    status : WORD;\nEND_STRUCT\nEND_TYPE\n\n";
+    s += "PROGRAM Main\nVAR\n    frame AT %IW0 : Frame;\n    mirror AT %QW0 : WORD;\n    width : DINT;\n    fwidth : DINT;\n    total : DINT;\nEND_VAR\nwidth := SIZEOF(Channel);\nfwidth := SIZEOF(Frame);\nmirror := frame.status;\ntotal := total + width + fwidth;\nEND_PROGRAM\n";
+    s
+}
+
 fn job_json(text: &str, trace: &[CycleIn]) -> J {
     json!({"text": text, "trace": trace.iter().map(|c| json!({"dt": c.dt_ns, "in": c.inputs.iter().map(|(n, t, v)| json!([n, t.name(), match v { Sv::I(x) => x.to_string(), Sv::F(f) => format!("f{:016x}", f.to_bits()) }])).collect::<Vec<_>>()})).collect::<Vec<_>>()})
 }
@@ -177,8 +196,14 @@ fn run_job(text: &str, trace: &[CycleIn]) -> (String, usize, Vec<String>) {
 /// Entry for `tpv c05-child <jobs.json> <out.json>`.
 pub fn child(args: &[String]) -> i32 {
     let jobs: J = serde_json::from_str(&std::fs::read_to_string(&args[0]).expect("jobs")).expect("json");
-    let mut out = Vec::new();
-    for j in jobs.as_array().unwrap() {
+    // every process works through the jobs in another order (rotation by its index), so the per-thread history differs
+    let rot: usize = args.get(2).and_then(|s| s.parse().ok()).unwrap_or(0);
+    let list = jobs.as_array().unwrap();
+    let n = list.len().max(1);
+    let mut out: Vec<J> = vec![J::Null; list.len()];
+    for step in 0..list.len() {
+        let idx = (step + rot) % n;
+        let j = &list[idx];
         let text = j["text"].as_str().unwrap().to_string();
         let trace = parse_trace(&j["trace"]);
         // twice in a row on this thread, once on a second thread
@@ -186,7 +211,7 @@ pub fn child(args: &[String]) -> i32 {
         let b = run_job(&text, &trace);
         let (t2, tr2) = (text.clone(), trace.clone());
         let c = std::thread::spawn(move || run_job(&t2, &tr2)).join().unwrap_or_else(|_| ("thread-panic".into(), 0, vec![]));
-        out.push(json!({"runs": [[a.0, a.1, a.2], [b.0, b.1, b.2], [c.0, c.1, c.2]]}));
+        out[idx] = json!({"runs": [[a.0, a.1, a.2], [b.0, b.1, b.2], [c.0, c.1, c.2]]});
     }
     std::fs::write(&args[1], J::Array(out).to_string()).expect("write");
     0
@@ -209,13 +234,17 @@ pub fn run(sh: &mut Shard) {
     while sh.time_left() {
         round += 1;
         let mut jobs = Vec::new();
-        for k in 0..12u64 {
+        for k in 0..14u64 {
             let mut g = rng.fork(round * 100 + k);
-            let (text, trace) = match k % 6 {
+            let (text, trace) = match k % 7 {
                 0 => {
                     let t = many_names(&mut g);
                     let tr: Vec<CycleIn> = (0..6).map(|_| CycleIn { dt_ns: *g.pick(&[0, 1_000_000, 3_000_000, 500_000]), inputs: vec![("trigger".into(), Ty::Bool, Sv::I(g.below(2) as i128))] }).collect();
                     (t, tr)
+                }
+                4 => {
+                    let t = layout_types(&mut g);
+                    (t, (0..3).map(|_| CycleIn { dt_ns: 1_000_000, inputs: vec![] }).collect())
                 }
                 3 => {
                     let t = background_programs(&mut g);
@@ -253,7 +282,7 @@ fn batch(sh: &mut Shard, work: &std::path::Path, exe: &std::path::Path, nproc: u
     for i in 0..nproc {
         let of = work.join(format!("c05-{}-{}-{round}.out{i}.json", sh.args.shard, std::process::id()));
         let mut c = Command::new(exe);
-        c.arg("c05-child").arg(&jf).arg(&of);
+        c.arg("c05-child").arg(&jf).arg(&of).arg(i.to_string());
         c.env("C05_PAD", "x".repeat(i * 977 + 1)).env("C05_I", i.to_string());
         c.stdout(std::process::Stdio::null()).stderr(std::process::Stdio::null());
         children.push((c.spawn().ok(), of));
@@ -316,6 +345,9 @@ fn batch(sh: &mut Shard, work: &std::path::Path, exe: &std::path::Path, nproc: u
                 }
                 if text.contains("PROGRAM Ticker") {
                     sh.count("jobs_with_several_background_programs", 1);
+                }
+                if text.contains("SIZEOF(Channel)") {
+                    sh.count("jobs_with_user_type_layout", 1);
                 }
                 sh.nontrivial(&fnv(text));
             } else {
